@@ -467,6 +467,10 @@ def run(ctx: core.Context) -> int:
         for si in range(len(SCRIPTS)):
             explore.explore(run_serialise, {'script': si}, 1 if quick else 3, ctx.jobs, st, label=f's{si}:')
         ctx.log('serialise:', st.summary())
+    if not only or 'cancel' in only:
+        for r in core.pmap(w_cancel, [0, 1, 2], ctx.jobs):
+            ctx.sub('cancel_queued').merge(r)
+        ctx.log('cancel_queued:', ctx.sub('cancel_queued').summary())
     if not only or 'procedure' in only:
         items = [(p, s, f) for p in PROCS for s in PROC_SITUATIONS[p] for f in [None] + FAULTS]
         for r in core.pmap(w_proc, items, ctx.jobs):
@@ -480,7 +484,7 @@ def run(ctx: core.Context) -> int:
             '0x01/0xFF when still well-formed, handle fields pointed at live/dead handles, address fields at the peer) and '
             'unregistered opcodes in every OGF, sent by a real Host to a real Controller in 3 link situations; distinct = '
             '(situation, packet bytes). serialise: 8 scripts of 2-3 concurrent callers, all order-preserving delivery delays '
-            'with <= d deviations, distinct = (schedule prefix, choice fingerprints).'
+            'with <= d deviations, distinct = (schedule prefix, choice fingerprints). cancel_queued: a caller still queued behind the outstanding command is cancelled before every loop step. '
         ),
         assumptions=[
             "only bumble's virtual controller is in scope",
@@ -494,6 +498,9 @@ def replay(v: core.Violation):
     if v.check.startswith('reply_'):
         r = run_reply_case(c['situation'], c['op'], bytes.fromhex(c['pkt']))
         return [r[1]] if r else []
+    if v.check.startswith('cancel_'):
+        r = run_cancel_case(c['script'], c['at'])
+        return [m for ck, _, m in r['viol'] if ck == v.check]
     if v.check.startswith('proc_'):
         r = run_proc_case(c['proc'], c['situation'], c['fault'], c['at'])
         return [r['verdict'][1]] if r.get('verdict') and r['verdict'][0] == v.check else []
@@ -524,9 +531,9 @@ PROC_SITUATIONS = {
     'le_create': ['present', 'absent_cancel', 'present_cancel'],
     'le_ext_create': ['present', 'absent_cancel'],
     'classic_create': ['present', 'absent'],
-    'disconnect_le': ['live', 'dead_handle'],
-    'disconnect_classic': ['live', 'dead_handle'],
-    'le_remote_features': ['live', 'dead_handle'],
+    'disconnect_le': ['live', 'dead_handle', 'live_from_peripheral'],
+    'disconnect_classic': ['live', 'dead_handle', 'live_from_peripheral'],
+    'le_remote_features': ['live', 'dead_handle', 'live_from_peripheral'],
     'remote_name': ['present', 'absent'],
     'remote_name_connected': ['present'],
     'le_encrypt': ['no_key'],
@@ -563,10 +570,10 @@ def proc_command(w, proc, situation, ctxd):
             bd_addr=addr, packet_type=0xCC18, page_scan_repetition_mode=2, reserved=0, clock_offset=0, allow_role_switch=1
         )
     if proc in ('disconnect_le', 'disconnect_classic'):
-        h = ctxd['handle'] if situation == 'live' else 0x0E11
+        h = ctxd['handle'] if situation.startswith('live') else 0x0E11
         return hci.HCI_Disconnect_Command(connection_handle=h, reason=0x13)
     if proc == 'le_remote_features':
-        h = ctxd['handle'] if situation == 'live' else 0x0E11
+        h = ctxd['handle'] if situation.startswith('live') else 0x0E11
         return hci.HCI_LE_Read_Remote_Features_Command(connection_handle=h)
     if proc in ('remote_name', 'remote_name_connected'):
         addr = peer.public_address if situation == 'present' else hci.Address('AA:BB:CC:DD:EE:FF', hci.Address.PUBLIC_DEVICE_ADDRESS)
@@ -616,8 +623,13 @@ def run_proc_case(proc, situation, fault, at):
             ctxd['cis_handle'] = handles[0]
         w.settle()
         w.loop.collect_exceptions()
-        tap = Tap(w, 0)
-        host = w.hosts[0]
+        me, other = 0, 1
+        if situation.endswith('_from_peripheral'):
+            # the procedure is issued from the peripheral / acceptor end of the connection
+            me, other = 1, 0
+            ctxd['handle'], ctxd['peer_handle'] = ctxd['peer_handle'], ctxd['handle']
+        tap = Tap(w, me)
+        host = w.hosts[me]
         cmd = proc_command(w, proc, situation, ctxd)
         msgs = [0]
         injected = [False]
@@ -625,12 +637,12 @@ def run_proc_case(proc, situation, fault, at):
         def inject():
             injected[0] = True
             if fault == 'peer_disconnect' and 'peer_handle' in ctxd:
-                w.loop.create_task(w.hosts[1].send_command(hci.HCI_Disconnect_Command(connection_handle=ctxd['peer_handle'], reason=0x13)))
+                w.loop.create_task(w.hosts[other].send_command(hci.HCI_Disconnect_Command(connection_handle=ctxd['peer_handle'], reason=0x13)))
             elif fault == 'local_disconnect' and 'handle' in ctxd:
                 w.loop.create_task(host.send_command(hci.HCI_Disconnect_Command(connection_handle=ctxd['handle'], reason=0x13)))
             elif fault == 'peer_vanish':
                 try:
-                    w.link.remove_controller(w.controllers[1])
+                    w.link.remove_controller(w.controllers[other])
                 except Exception:
                     pass
 
@@ -714,4 +726,84 @@ def w_proc(arg):
                 if r['verdict']:
                     v = r['verdict']
                     st.violation(v[0], {'proc': proc, 'situation': situation, 'fault': fault}, f'{proc}/{situation} with {fault} before message {at}: {v[1]} {r["excs"]}', {'proc': proc, 'situation': situation, 'fault': fault, 'at': at})
+    return st
+
+
+# ---------------------------------------------------------------------------
+# sub-check 2b: a caller that is still queued behind the outstanding command is cancelled
+# ---------------------------------------------------------------------------
+def run_cancel_case(script_i, at):
+    """Caller 'victim' (a distinct opcode) is cancelled just before loop step `at`, but only while its
+    command has not been handed to the controller yet (cancelling the caller whose command is in flight
+    is outside the stated space).  Returns dict(steps, viol, skipped)."""
+    from bumble import hci
+
+    others = [['sync', 'sync2'], ['sync2'], ['sync', 'unknown']][script_i]
+    cmds = script_commands()
+    with World(2) as w:
+        w.power_on()
+        tap = Tap(w, 0)
+        host = w.hosts[0]
+        results = []
+        VICTIM_OP = hci.HCI_READ_BUFFER_SIZE_COMMAND
+
+        async def caller(i, names):
+            for n in names:
+                c = cmds[n]()
+                r = await host.send_command(c)
+                results.append((i, c.op_code, r.command_opcode))
+
+        async def victim():
+            r = await host.send_command(hci.HCI_Read_Buffer_Size_Command())
+            results.append(('v', VICTIM_OP, r.command_opcode))
+
+        tasks = [w.loop.create_task(caller(0, others))]
+        vt = w.loop.create_task(victim())
+        tasks.append(w.loop.create_task(caller(1, ['sync'])))
+        steps = [0]
+        state = {'done': False, 'skipped': False}
+        prev = w.loop.on_step
+
+        def on_step(handle):
+            if steps[0] == at and not state['done']:
+                state['done'] = True
+                sent = any(e[0] == 'cmd' and e[1] == VICTIM_OP for e in tap.log)
+                if sent or vt.done():
+                    state['skipped'] = True
+                else:
+                    vt.cancel()
+            steps[0] += 1
+            prev(handle)
+
+        w.loop.on_step = on_step
+        w.loop.run_quiescent(max_steps=50000)
+        w.loop.collect_exceptions()
+        viol = []
+        if not state['done']:
+            return {'steps': steps[0], 'viol': [], 'skipped': True}
+        if tap.outstanding_max > 1:
+            viol.append(('cancel_two_outstanding', {'kind': 'two_outstanding'}, f'{tap.outstanding_max} commands outstanding at once after a queued caller was cancelled: {fmt_log(tap.log)}'))
+        for i, own, got in results:
+            if own != got:
+                viol.append(('cancel_misrouted', {'kind': 'misrouted'}, f'caller {i} sent {own:#06x} and was handed the response for {got:#06x}: {fmt_log(tap.log)}'))
+        pend = [i for i, t in enumerate(tasks) if not t.done()]
+        if pend:
+            viol.append(('cancel_caller_pending', {'kind': 'caller_pending'}, f'callers {pend} never completed after a queued caller was cancelled: {fmt_log(tap.log)}'))
+        for t in tasks:
+            if t.done() and not t.cancelled() and t.exception():
+                viol.append(('cancel_caller_error', {'kind': 'caller_error'}, f'caller raised {t.exception()!r}'))
+        return {'steps': steps[0], 'viol': viol, 'skipped': state['skipped']}
+
+
+def w_cancel(script_i):
+    st = core.Stats('cancel_queued')
+    base = run_cancel_case(script_i, -1)
+    for at in range(0, base['steps'] + 1):
+        r = run_cancel_case(script_i, at)
+        if r['skipped']:
+            st.count('injection_points_where_victim_already_sent')
+            continue
+        st.case((script_i, at), {'script': script_i, 'cancel_before_step': at} if at == 1 else None)
+        for check, sig, msg in r['viol']:
+            st.violation(check, sig, msg, {'script': script_i, 'at': at})
     return st
